@@ -71,7 +71,11 @@ def run(ctx):
               'submissions with/without hints, generated from VERIF_SEED, replayed on the extracted model first (expected error flag, '
               'worker states, completed tasks after every op) and then on the real runtime; GATE = two hand-shake schedules forced '
               'with hook gates (task enqueued between the worker\'s pop and its queue re-check; notifications lost before the wait); '
-              'CONC = concurrent perturbed histories with monitors only. Non-trivial SEQ case: contains a suspend and a later '
+              'CONC = concurrent perturbed histories with monitors only. BLK (elastic pools) = 1..4 tasks hinted to worker w are blocked on a pika::latch / '
+              'condition variable / sync_wait of a default-pool sender (state suspended, owned by w\'s queues: scheduler get_thread_count(suspended, w) is recorded) '
+              'when suspend_processing_unit_direct(w) is issued from an OS thread or a task of the default pool; they are released only after the call '
+              'returned: monitors = the call returns within 10 s with w sleeping and no error, tasks then submitted to the remaining workers run '
+              'without a resume, the released tasks finish (before or after the resume, ledger), none continues on the suspended unit. Non-trivial SEQ case: contains a suspend and a later '
               'submission; distinct = distinct (configuration, history)')
     ctx.build_pika()
     drv = ctx.build_model('C19', 'ExtractC19.v', 'drv_c19.ml')
@@ -79,6 +83,7 @@ def run(ctx):
     quick = ctx.tier == 'quick'
     nseq = 60 if quick else 1000
     nconc = 24 if quick else 500
+    nblk = 10 if quick else 150
     work = '%s/c19' % BUILD
     os.makedirs(work, exist_ok=True)
     replay_case = None
@@ -163,11 +168,13 @@ def run(ctx):
             for x in model_run(drv, ['IN LOWP p1 %s n=30' % cfgs]):
                 p = x.split(' ', 3)
                 expect[('LOWP', p[2])] = p[3]
-        allcases = gates + cases + concs + lowp
+        # tasks hinted to worker w are blocked (latch / condition variable / sync_wait) when suspend_processing_unit_direct(w) is issued
+        blks = ['BLK b%d %d' % (k, rng.randrange(1, 1 << 30)) for k in range(nblk)] if el else []
+        allcases = gates + cases + concs + lowp + blks
         if replay_case is not None:
             k0 = replay_case.split(' ')[0]
             allcases = {'SEQ': cases[:1], 'GATE': [g_ for g_ in gates if g_.split(' ')[2] == replay_case.split(' ')[2]],
-                        'CONC': [replay_case], 'LOWP': lowp}.get(k0, [])
+                        'CONC': [replay_case], 'LOWP': lowp, 'BLK': [replay_case]}.get(k0, [])
         # ---- run the real runtime (restart after a hang)
         outs = {}
         inl = {}
@@ -262,6 +269,38 @@ def run(ctx):
                     r.hits.append(Hit('corr', 'C19:seq:correspondence', 'sequential history %s (%s %s): implementation [%s] model [%s]'
                                       % (f[2], cfgs, pol, got, want), dict(rep, impl=got, model=want)))
                 r.sample({'config': cfgs + ' ' + pol, 'history': f[2], 'observed': got})
+            elif f[0] == 'BLK':
+                # model-independent monitors of "the calls themselves return" / "tasks continue to complete on the remaining workers"
+                # for a processing unit that owns BLOCKED tasks
+                if kvs.get('skipped') == '1':
+                    continue
+                if kvs.get('setup') != '1':
+                    r.notes.append('BLK case not set up as intended (tasks did not all block; not judged): %s %s %s' % (cfgs, pol, o[:200]))
+                    continue
+                if int(kvs.get('suspended_owned_by_w', 0)) > 0:
+                    r.nontrivial('%s %s %s' % (cfgs, pol, c))
+                r.count('BLK owned_by_w=%s %s' % ('yes' if int(kvs.get('suspended_owned_by_w', 0)) > 0 else 'no', cfgs))
+                w_ = int(kvs.get('w', 0))
+                sts = kvs.get('states_at_return', '').split(',')
+                if kvs.get('returned') != '1':
+                    r.hits.append(Hit('monitor', 'C19:suspend_pu:waits_for_blocked_tasks',
+                                      'suspend_processing_unit_direct(%d) did not return within 10 s while %s tasks (of which %s owned by the queues of worker %d) were '
+                                      'blocked on a latch / condition variable / sync_wait that is released only after the call returned: the call waits for '
+                                      'blocked tasks (states %s, %s finished) (%s %s, case %s): %s'
+                                      % (w_, kvs.get('K'), kvs.get('suspended_owned_by_w'), w_, kvs.get('states_at_return'), kvs.get('finished_at_return'), cfgs, pol, c, o), rep))
+                else:
+                    if kvs.get('err') != '0':
+                        r.hits.append(Hit('monitor', 'C19:supported_call_failed', 'suspend of a processing unit that owns blocked tasks reported an error (%s %s, case %s): %s' % (cfgs, pol, c, o), rep))
+                    elif len(sts) > w_ and sts[w_] != '8':
+                        r.hits.append(Hit('monitor', 'C19:suspend_pu:returned_not_sleeping',
+                                          'suspend_processing_unit_direct(%d) returned but the worker is in state %s, not sleeping (%s %s, case %s): %s' % (w_, sts[w_], cfgs, pol, c, o), rep))
+                    if kvs.get('others_done') != '1':
+                        r.hits.append(Hit('monitor', 'C19:suspend_pu:remaining_workers_stalled',
+                                          'after suspend_processing_unit_direct(%d) returned (the unit owns blocked tasks) tasks submitted to the remaining running workers '
+                                          'did not complete within 10 s without a resume (%s %s, case %s): %s' % (w_, cfgs, pol, c, o), rep))
+                    if kvs.get('body_on_suspended') != '0':
+                        r.hits.append(Hit('monitor', 'C19:body_on_suspended_pu', 'a released task continued on processing unit %s after its suspend call had returned '
+                                          'and before any resume was issued (%s %s, case %s)' % (kvs.get('w'), cfgs, pol, c), rep))
             elif f[0] == 'LOWP':
                 r.nontrivial('%s %s lowp' % (cfgs, pol))
                 want = expect.get(key)
